@@ -109,6 +109,8 @@ def random_cases(rng, n, modifiers):
             concrete = all(isinstance(p, tuple) for p in rparts)
             mt = "none" if concrete else rng.choice(MTS)
             order = rng.choice(["dm", "md"])
+        if rng.random() < 0.05 and dt != "dtype" and "dtype" not in repr(rparts):
+            doc = gen.subclassify(doc)           # containers of a subclass type are containers all the same
         yield rparts, dt, mt, order, doc
 
 
@@ -181,7 +183,7 @@ def run_path_check(rep, tier, seed, modifiers, label):
                 rep.extra["unconstructible"] = rep.extra.get("unconstructible", 0) + 1
                 return
             events.append(e)
-            recipes[e["id"]] = {"rparts": to_lit(rparts), "dt": dt, "mt": mt, "order": order, "doc": to_lit(doc),
+            recipes[e["id"]] = {"rparts": to_lit(rparts), "dt": dt, "mt": mt, "order": order, "doc": to_lit(doc), "sub": isinstance(doc, (gen.ListSub, __import__("collections").OrderedDict)),
                                 "entry": entry}
             twin = retyped_twin(rparts) if not _in_twin[0] else None
             if twin is not None and entry in ("Data_get_parts", "get_data_raw", "Data_get_path"):
@@ -249,7 +251,7 @@ def replay(rep, case):
     if r.get("multi_concrete"):
         ev = [multi_concrete_event(1, rparts, r["mt"])]
     else:
-        ev = [get_event(1, rparts, r["dt"], r["mt"], r["order"], from_lit(r["doc"]), r["entry"])]
+        ev = [get_event(1, rparts, r["dt"], r["mt"], r["order"], gen.subclassify(from_lit(r["doc"])) if r.get("sub") else from_lit(r["doc"]), r["entry"])]
     res = tlc.accept("Trace_Path", "Trace_Path.cfg", ev, shards=1)
     rep.add_tlc(res, "B:Trace_Path(replay)")
     rep.traces += 1
